@@ -414,7 +414,8 @@ func (vc *VC) rangeLoopFacts(li *loopInfo, R string) {
 			// n is loop invariant (evaluated before the loop)
 			nterm := vc.val1(bo.Y)
 			p := vc.val1(phi)
-			vc.assume(implies(R, "(and (<= (- 1) "+p+") (<= "+p+" "+nterm+") (<= 0 "+nterm+"))"))
+			// p is -1 on entry and p+1 < n was checked before every back edge: -1 <= p <= n-1
+			vc.assume(implies(R, "(and (<= (- 1) "+p+") (< "+p+" (+ "+nterm+" 1)) (<= "+p+" (- "+nterm+" 1)) (<= 0 "+nterm+"))"))
 			li.autoRange = true
 		}
 	}
